@@ -79,7 +79,7 @@ _MER_EDGE_T = re.compile(r'^(\d+)-- "([^"]*)" -->(\d+)$')
 
 
 def parse_mermaid(text, title):
-    """-> (nodes [(idx, name, is_root_shape)], edges [(from idx, to idx, kind|None)])"""
+    """-> (nodes [(idx, name, is_root_shape)], edges [(from idx, to idx, kind|None)], raw node lines, raw edge lines)"""
     lines = text.split("\n")
     head = ["```mermaid", "---", f"title: {title}", "---", "", "%% Generator: " + GENERATOR, "", "flowchart TD", "",
             "%% Nodes:"]
@@ -114,7 +114,7 @@ def parse_mermaid(text, title):
         if not m:
             raise ParseError(f"mermaid edge line {ln!r}")
         es.append((int(m.group(1)), int(m.group(3)), m.group(2)))
-    return ns, es
+    return ns, es, nodes[:-1], edges
 
 
 SYS = ("SYS",)
@@ -421,7 +421,8 @@ class Prop:
             [e(d, lambda d: [[[obs_key(k), opt(lbl), box] for k, lbl, box in d[0]],
                              [[obs_key(x), obs_key(y), opt(lbl)] for x, y, lbl in d[1]]]) for d in dots],
             [e(m, lambda m: [[[i, nm, r] for i, nm, r in m[0]],
-                             [[[x], [y], opt(k)] for x, y, k in m[1]]]) for m in mers],
+                             [[[x], [y], opt(k)] for x, y, k in m[1]],
+                             [[ln] for ln in m[2]], [[ln] for ln in m[3]]]) for m in mers],
             [e(r, obs_rdf) for r in rdfs],
         ]
 
@@ -475,7 +476,7 @@ class Prop:
             m = mers[ci]
             if is_err(m):
                 return f"mermaid-error: {tag}: raised {H.ERR_NAMES.get(m[1], m[1])}"
-            mn, me = m
+            mn, me = m[0], m[1]
             k = len(want_keys)
             want_idx = list(range(0, k)) if a else list(range(1, k + 1))
             if sorted(i for i, _, _ in mn) != want_idx:
